@@ -554,19 +554,19 @@ impl Heap {
 /// take/restore pair used to bypass the utilisation test of `Vm::run_gc`.
 #[cfg(marwood_verif)]
 impl Heap {
-    pub(crate) fn verif_cells(&self) -> &[VCell] {
+    pub fn verif_cells(&self) -> &[VCell] {
         &self.heap
     }
 
-    pub(crate) fn verif_gc_state(&self, index: usize) -> Option<u8> {
+    pub fn verif_gc_state(&self, index: usize) -> Option<u8> {
         self.heap_map.get(index).map(|it| it.bits())
     }
 
-    pub(crate) fn verif_free_list(&self) -> &[usize] {
+    pub fn verif_free_list(&self) -> &[usize] {
         &self.free_list
     }
 
-    pub(crate) fn verif_symbol_table(&self) -> &HashMap<String, usize> {
+    pub fn verif_symbol_table(&self) -> &HashMap<String, usize> {
         &self.symbol_table
     }
 
